@@ -695,11 +695,17 @@ func (s *sess) storeLayer() {
 
 func (s *sess) reopen(i int) {
 	c := s.commits[i]
-	s.tr = trie.NewTrie(c.root, common.Hasher, s.store)
-	if s.cacheH > 0 {
-		s.tr.CacheHeightLimit = s.cacheH
-		if err := s.tr.LoadCache(c.root); err != nil && len(c.root) != 0 {
-			s.fail("LoadCache: " + err.Error())
+	if s.run.Rng.Chance(1, 2) {
+		// the root is switched on the LIVE instance, caches and all (StateDB.SetRoot / Revert: `states.Trie.Root = root`)
+		s.tr.Root = append([]byte{}, c.root...)
+		s.run.Count("reopen-root-switched-on-live-instance")
+	} else {
+		s.tr = trie.NewTrie(c.root, common.Hasher, s.store)
+		if s.cacheH > 0 {
+			s.tr.CacheHeightLimit = s.cacheH
+			if err := s.tr.LoadCache(c.root); err != nil && len(c.root) != 0 {
+				s.fail("LoadCache: " + err.Error())
+			}
 		}
 	}
 	s.ref = map[string][]byte{}
@@ -708,6 +714,7 @@ func (s *sess) reopen(i int) {
 	}
 	s.op(fmt.Sprintf("reopen %d", i), rootStr(c.root), false)
 	s.run.Count("reopen")
+	s.checkReads(s.tr, s.ref, fmt.Sprintf("through the instance reopened at committed root #%d", i))
 }
 
 // ---- generators -------------------------------------------------------------
